@@ -282,5 +282,8 @@ def run(ctx):
     check_adaptive_unitfree(ctx)
     check_grid_equivariance(ctx)
     check_spline_scheme(ctx)
+    from . import c17, c04
+    c17.check_oversample(ctx)            # the grid every strategy works on: built by linspace between neighbours only (affine-equivariant, exact)
+    c04.check_function_rfa(ctx)
     ctx.notes.append('NOT DECIDED: non-negativity of the weights (an inequality); exact float equality of the two sides of the metamorphic relation.')
     ctx.trust('Abs(c*e)=|c|*Abs(e) for rational c', 'array helpers uninterpreted here (C17)')
